@@ -51,6 +51,14 @@ def billing_cases(draw):
     # a pure calendar: at most a quarter of the periods are off-cycle, so the cadence (median period) is unambiguous
     for pos in draw(st.lists(st.integers(0, n - 1), max_size=max(1, (n - 2) // 4), unique=True)):
         lengths[pos] = draw(odd)
+    if cyc == "monthly" and draw(st.integers(0, 7)) == 0:
+        # a coincidence calendar: the first period equals the mean period (first read + n x first period = last read) although the
+        # periods are uneven and one of them is off-cycle long - the cadence is still that of the typical (median) period
+        L = draw(st.integers(31, 34))
+        long_ = draw(st.integers(L + 5, 50))
+        rest = [L - 1] * (long_ - L)
+        k = draw(st.integers(0, len(rest)))
+        lengths = [L] + rest[:k] + [long_] + rest[k:]
     c = {"kind": "billing", "tz": tz, "cycle": cyc, "lengths": lengths, "start_day": draw(st.integers(0, 600)),
          "entry": draw(st.sampled_from(["frame", "from_series", "from_series_hourly_T"])), "T_utc": draw(st.booleans()),
          "useed": draw(st.integers(0, 2 ** 20)), "baseline": draw(st.booleans()),
